@@ -17,6 +17,8 @@
 package postgresql
 
 import (
+	"sync/atomic"
+
 	log "github.com/sirupsen/logrus"
 )
 
@@ -63,7 +65,8 @@ func (queryPacket queryPacket) zeroize() {
 
 // PgProtocolState keeps track of PostgreSQL protocol state.
 type PgProtocolState struct {
-	lastPacketType PacketType
+	// written by the client side and by the database side of the proxy, each from its own goroutine
+	lastPacketType atomic.Int32
 	// collect queries from the application that waiting DataRows from the database to correctly map settings of
 	// transparent encryption and type awareness to the result rows
 	pendingQueryPackets *pendingPacketsList
@@ -90,104 +93,101 @@ const (
 
 // NewPgProtocolState makes an initial PostgreSQL state, awaiting for queries.
 func NewPgProtocolState(registry *PgPreparedStatementRegistry) *PgProtocolState {
-	return &PgProtocolState{lastPacketType: OtherPacket, pendingQueryPackets: newPendingPacketsList(), registry: registry}
+	state := &PgProtocolState{pendingQueryPackets: newPendingPacketsList(), registry: registry}
+	state.lastPacketType.Store(int32(OtherPacket))
+	return state
 }
 
-// LastPacketType returns type of the last seen packet.
+// LastPacketType returns type of the last seen packet, of either side. The two sides of the proxy work
+// concurrently: a packet has to be handled by the type that HandleClientPacket / HandleDatabasePacket
+// returned for it, not by this value, which the other side may have changed already.
 func (p *PgProtocolState) LastPacketType() PacketType {
-	return p.lastPacketType
+	return PacketType(p.lastPacketType.Load())
+}
+
+func (p *PgProtocolState) seen(packetType PacketType) PacketType {
+	p.lastPacketType.Store(int32(packetType))
+	return packetType
 }
 
 // HandleClientPacket observes a packet from client to the database,
 // extracts query information from it, and anticipates future database responses.
-func (p *PgProtocolState) HandleClientPacket(packet *PacketHandler) error {
+func (p *PgProtocolState) HandleClientPacket(packet *PacketHandler) (PacketType, error) {
 	// Query packets are easy, that's a simple query protocol.
 	if packet.IsSimpleQuery() {
-		p.lastPacketType = SimpleQueryPacket
-		return nil
+		return p.seen(SimpleQueryPacket), nil
 	}
 
 	// Parse packets initiate extended query protocol.
 	if packet.IsParse() {
-		p.lastPacketType = ParseStatementPacket
-		return nil
+		return p.seen(ParseStatementPacket), nil
 	}
 
 	// Bind packets carry bound parameters for extended queries.
 	if packet.IsBind() {
-		p.lastPacketType = BindStatementPacket
-		return nil
+		return p.seen(BindStatementPacket), nil
 	}
 
 	// Execute packets initiate data retrieval from portals.
 	if packet.IsExecute() {
-		p.lastPacketType = ExecutePacketType
-		return nil
+		return p.seen(ExecutePacketType), nil
 	}
 
 	// We are not interested in other packets, just pass them through.
-	p.lastPacketType = OtherPacket
-	return nil
+	return p.seen(OtherPacket), nil
 }
 
 // HandleDatabasePacket observes a packet with database response,
 // extracts useful information from it, and confirms client requests.
-func (p *PgProtocolState) HandleDatabasePacket(packet *PacketHandler) error {
+func (p *PgProtocolState) HandleDatabasePacket(packet *PacketHandler) (PacketType, error) {
 	// This is data response to the previously issued query.
 	if packet.IsDataRow() {
-		p.lastPacketType = DataPacket
-		return nil
+		return p.seen(DataPacket), nil
 	}
 
 	if packet.IsRowDescription() {
-		p.lastPacketType = RowDescriptionPacket
-		return nil
+		return p.seen(RowDescriptionPacket), nil
 	}
 
 	if packet.IsParameterDescription() {
-		p.lastPacketType = ParameterDescriptionPacket
-		return nil
+		return p.seen(ParameterDescriptionPacket), nil
 	}
 
 	if packet.IsParseComplete() {
-		p.lastPacketType = ParseCompletePacket
-		return nil
+		return p.seen(ParseCompletePacket), nil
 	}
 
 	if packet.IsBindComplete() {
-		p.lastPacketType = BindCompletePacket
-		return nil
+		return p.seen(BindCompletePacket), nil
 	}
 
 	if packet.IsCommandComplete() || packet.IsEmptyQueryResponse() || packet.IsPortalSuspended() || packet.IsErrorResponse() {
-		p.lastPacketType = OtherPacket
+		p.seen(OtherPacket)
 		pendingQueryPacket, err := p.pendingQueryPackets.GetPendingPacket(queryPacket{})
 		if err != nil {
 			log.WithError(err).Errorln("No pending qury packet")
-			return err
+			return OtherPacket, err
 		}
 		// valid case if received ErrorResponse for non-query packets from the database
 		if pendingQueryPacket == nil {
 			if !packet.IsErrorResponse() {
 				log.Warningln("Can't find pending query packet")
 			}
-			return nil
+			return OtherPacket, nil
 		}
 		log.WithField("command", pendingQueryPacket.(queryPacket)).Infoln("Command complete")
 		if err := p.pendingQueryPackets.RemoveNextPendingPacket(queryPacket{}); err != nil {
-			return err
+			return OtherPacket, err
 		}
-		return nil
+		return OtherPacket, nil
 	}
 
 	// ReadyForQuery starts a new query processing. Forget pending queries.
 	// There is nothing interesting in the packet otherwise.
 	if packet.IsReadyForQuery() {
-		p.lastPacketType = ReadyForQueryPacket
-		return nil
+		return p.seen(ReadyForQueryPacket), nil
 	}
 
 	// We are not interested in other packets, just pass them through.
-	p.lastPacketType = OtherPacket
-	return nil
+	return p.seen(OtherPacket), nil
 }
